@@ -150,6 +150,16 @@ Definition slash_from_undel (p : Z) (r : urec) : urec * list (Z * Z * Z) :=
     if amt >=? u_actual r then (set_actual r 0, [(u_staker r, u_asset r, u_actual r)])
     else (set_actual r (u_actual r - amt), [(u_staker r, u_asset r, amt)]).
 
+(* The same function on scalars, in the argument order of the Go-derived kernel Gen.Kernels.SlashFromUndelegation
+   (undelegation.Amount, undelegation.ActualCompletedAmount, slashProportion): result = (recorded slash amount if a
+   SlashFromUndelegation entry is produced, new ActualCompletedAmount).  Proofs.slash_from_undel_scalar ties it to
+   [slash_from_undel]. *)
+Definition slash_from_undel_k (amount actual p : Z) : option Z * Z :=
+  if actual =? 0 then (None, actual)
+  else
+    let amt := slash_amt p amount in
+    if amt >=? actual then (Some actual, 0) else (Some amt, actual - amt).
+
 (* IterateUndelegationsByOperator(operator, &heightFilter, isUpdate = true, opFunc) *)
 Fixpoint walk_recs (p op event : Z) (rs : list urec) : list urec * list (Z * Z * Z) :=
   match rs with
